@@ -19,6 +19,8 @@ func init() {
 }
 
 func runC02(r *Run, p *Prog) {
+	// F6: the carry-over between segments lives in one buffered reader: every read primitive of the connection consumes through it
+	siblingRules(r, p, "C18", []string{"U1", "U1b", "U1c"}, "F6")
 	ro := DiscoverRoles(p)
 	T, cg := ro.T, ro.CG
 	// ---- F1
